@@ -69,7 +69,8 @@ compared through common.exn_name.  Initializer keys: "" is never a key (added to
 
 FINDINGS (genuine defects, reproduced on the implementation; proposed_fixes/C01-*.diff repair 10 of them — LANDED as
 /repo c5c2382 and dff454e (minus the "graph input / initializer as node output" hunk), entries now status=fixed,
-witnesses moved to corpus/; still known: graph-ctor-partial, node-output-owned, init-ior-untracked — validated:
+witnesses moved to corpus/; still known: graph-ctor-partial, node-output-owned (init-ior-untracked repaired by /repo 4b0e698: `initializers |= m` is
+now rejected with RuntimeError before it mutates; witness kept as an oracle-only corpus case) — validated:
 578 tests of _core/_graph_containers/_convenience pass, and the tie run against the patched tree with the model
 switched to the repaired branches (VERIF_C01_FIXED=...) shows zero mismatches): see known_findings.d/C01.json.
 New relative to DESIGN §1: latent ref-count corruption by a rejected extend() that changes nothing visible
